@@ -284,7 +284,7 @@ def model_driver():
         d.mkdir(parents=True, exist_ok=True)
         for f in ("model.ml", "model.mli", "driver.ml"):
             shutil.copy(VERIF / "ocaml" / f, d / f)
-        rc, out, err = sh(["ocamlfind", "ocamlopt", "-w", "-a", "-package", "str", "-linkpkg",
+        rc, out, err = sh(["ocamlfind", "ocamlopt", "-w", "-a", "-package", "str,unix", "-linkpkg",
                                "model.mli", "model.ml", "driver.ml", "-o", "driver"], cwd=d)
         if rc != 0:
             raise BuildError("ocaml build failed: " + (out + err)[-3000:])
